@@ -19,7 +19,11 @@ Definition int_arg (v : Z) : arg := mkarg (AInt v) false.
 Lemma gen_all_checked : all_checked gen_codec = true.
 Proof. vm_compute. reflexivity. Qed.
 
-From TV Require Import Proofs.AbiNoPanic Proofs.IntrinsicPlace.
+From TV Require Import Proofs.AbiNoPanic Proofs.IntrinsicPlace Proofs.AbiReencode.
+
+(* every checked cast has a target that holds exactly what the decoder can return, paddings agree both ways *)
+Lemma gen_codec_reenc : codec_reenc gen_codec = true.
+Proof. vm_compute. reflexivity. Qed.
 
 Lemma gen_chars_covered : chars_covered gen_codec = true.
 Proof. vm_compute. reflexivity. Qed.
